@@ -118,6 +118,36 @@ def multi_chain_errors(rng, fam, sz, t, count):
     return out
 
 
+def spread_errors(rng, fam, sz, t, count):
+    """`count` planar errors of ONE Pauli type made of t isolated single-qubit errors: one in the band next to a boundary,
+    one in the band next to the OPPOSITE boundary, the rest anywhere - several boundary chains plus interior chains at
+    once, the inputs on which the connectivity among the virtual boundary nodes decides the matching"""
+    R, C = sz
+    if fam != 'planar' or t < 2:
+        return []
+    n = R * C + (R - 1) * (C - 1)
+    idx = {}
+    for m0 in range(2 * R - 1):
+        for m1 in range(2 * C - 1):
+            if (m0 + m1) % 2 == 0:
+                idx[(m0, m1)] = (m0 // 2) * (C - m1 % 2) + m1 // 2 + (m0 % 2) * R * C
+    allq = sorted(idx)
+    bands = {'N': [q for q in allq if q[0] <= 1], 'S': [q for q in allq if q[0] >= 2 * R - 3],
+             'W': [q for q in allq if q[1] <= 1], 'E': [q for q in allq if q[1] >= 2 * C - 3]}
+    out = []
+    for _ in range(count):
+        a, b = rng.choice((('N', 'S'), ('W', 'E')))
+        qs = {rng.choice(bands[a]), rng.choice(bands[b])}
+        while len(qs) < t:
+            qs.add(rng.choice(allq))
+        off = rng.choice((0, n))
+        e = ['0'] * (2 * n)
+        for q in qs:
+            e[off + idx[q]] = '1'
+        out.append(''.join(e))
+    return out
+
+
 # ---------------------------------------------------------------------------------------------
 # canonical graphs
 # ---------------------------------------------------------------------------------------------
